@@ -42,10 +42,12 @@ type SpecFun struct {
 }
 
 type Axiom struct {
-	Name string
-	E    Expr
-	Text string
-	Pkg  string
+	Name  string
+	E     Expr
+	Text  string
+	Pkg   string
+	Lemma bool     // proved from the axioms and lemmas declared before it
+	Props []string
 }
 
 type FuncContract struct {
@@ -241,7 +243,14 @@ func (cs *Contracts) loadFile(path string) error {
 			if err != nil {
 				return fail(err)
 			}
-			cs.Axioms = append(cs.Axioms, &Axiom{Name: strings.TrimSpace(parts[0]), E: e, Text: strings.TrimSpace(parts[1]), Pkg: pkg})
+			hf := strings.Fields(parts[0])
+			ax := &Axiom{Name: hf[0], E: e, Text: strings.TrimSpace(parts[1]), Pkg: pkg, Lemma: kw == "lemma"}
+			for i := 1; i+1 < len(hf); i++ {
+				if hf[i] == "props" {
+					ax.Props = strings.Split(hf[i+1], ",")
+				}
+			}
+			cs.Axioms = append(cs.Axioms, ax)
 			cur = nil
 		case "ghost":
 			// ghost var NAME TYPE   (global ghost state)   -- or inside a func: ghost stmt handled by assert-at
